@@ -101,7 +101,7 @@ Print Assumptions C06_new_map_json_empty_refuted.
 
 (* ================================================================== non-vacuity *)
 
-Local Open Scope string_scope.
+
 (* a Map of JSON types whose keys and values contain <, >, &, backslashes, quotes, a control character, U+2028, a
    non-ASCII rune and the literal texts backslash-u003c / backslash-u0026: every hypothesis holds, the default encoding
    writes < literally, the safe one does not, both decode back *)
